@@ -6,6 +6,7 @@ package main
 
 import (
 	"fmt"
+	"regexp"
 	"strings"
 
 	"verifharness/vh"
@@ -13,10 +14,16 @@ import (
 
 // Leaf says what a non-group declaration matches on (see Model/Hier.v `leaf`).
 type Leaf struct {
-	Kind string `json:"kind"`        // "name" | "rows" | "hf"
+	Kind string `json:"kind"`        // "name" | "rows" | "hf" | "pat"
 	N    int    `json:"n,omitempty"` // name / header name
 	K    int    `json:"k,omitempty"` // rows
 	F    int    `json:"f,omitempty"` // footer name
+	// "pat": header / footer regular expressions, matched against the raw line (csv2: the fields
+	// joined by the delimiter).  HP / FP: the pattern numbers the harness assigns (FP -1: no footer)
+	HRe string `json:"header,omitempty"`
+	FRe string `json:"footer,omitempty"`
+	HP  int    `json:"hp,omitempty"`
+	FP  int    `json:"fp,omitempty"`
 }
 
 // Decl is one declaration.  Max < 0 = unbounded.
@@ -39,6 +46,9 @@ type Unit struct {
 	Rej bool `json:"rej,omitempty"`
 	// Txt: EDI only: the escaped text of an extra element, as it is written into the input
 	Txt string `json:"txt,omitempty"`
+	// Raw: pattern cases (Case.Pat): the whole physical line; Name is then the bit mask of the
+	// case's patterns this line matches, computed with Go's regexp (assignPatMasks)
+	Raw string `json:"raw,omitempty"`
 	// csv2/fixedlength2 text layout: extra trailing characters on the line (ignored by the column
 	// declarations), and blank lines after it (the readers skip blank lines: they are not units)
 	Pad   int `json:"pad,omitempty"`
@@ -132,8 +142,59 @@ func leafTake(l Leaf, us []Unit) int {
 				}
 			}
 		}
+	case "pat":
+		// Go's regexp directly on the raw line: independent of the library's matchLine/matchHeader
+		if len(us) > 0 && reOf(l.HRe).MatchString(us[0].Raw) {
+			if l.FRe == "" {
+				return 1
+			}
+			fre := reOf(l.FRe)
+			for i, u := range us {
+				if fre.MatchString(u.Raw) {
+					return i + 1
+				}
+			}
+		}
 	}
 	return -1
+}
+
+var reCache = map[string]*regexp.Regexp{}
+
+func reOf(p string) *regexp.Regexp {
+	re, ok := reCache[p]
+	if !ok {
+		re = regexp.MustCompile(p)
+		reCache[p] = re
+	}
+	return re
+}
+
+// assignPatMasks numbers the patterns of a pattern case (preorder: header, then footer) and sets
+// every unit's Name to the bit mask of the patterns its raw line matches.
+func assignPatMasks(c *Case) {
+	var pats []string
+	walk(c.Decls, func(d *Decl) {
+		if d.Group || d.Leaf.Kind != "pat" {
+			return
+		}
+		d.Leaf.HP = len(pats)
+		pats = append(pats, d.Leaf.HRe)
+		d.Leaf.FP = -1
+		if d.Leaf.FRe != "" {
+			d.Leaf.FP = len(pats)
+			pats = append(pats, d.Leaf.FRe)
+		}
+	})
+	for i := range c.Units {
+		m := 0
+		for k, p := range pats {
+			if reOf(p).MatchString(c.Units[i].Raw) {
+				m |= 1 << uint(k)
+			}
+		}
+		c.Units[i].Name = m
+	}
 }
 
 // ---- the documented greedy matcher ------------------------------------------------------------
@@ -150,6 +211,7 @@ type specRun struct {
 	steps   int
 	withTxt bool // EDI: instances carry the unescaped text of their units
 	relChar bool // the text is escaped with the release character
+	pat     bool // pattern case: the text of a unit is its raw line
 }
 
 func starts(d *Decl, us []Unit) bool {
@@ -169,7 +231,11 @@ func (s *specRun) inst(d *Decl, us []Unit) (*Inst, []Unit, *specErr) {
 		for _, u := range us[:n] {
 			in.IDs = append(in.IDs, u.ID)
 			if s.withTxt {
-				in.X = append(in.X, unescapeTxt(u.Txt, s.relChar))
+				if s.pat {
+					in.X = append(in.X, u.Raw)
+				} else {
+					in.X = append(in.X, unescapeTxt(u.Txt, s.relChar))
+				}
 			}
 		}
 		us = us[n:]
@@ -255,7 +321,7 @@ func hasRejected(in *Inst, rej map[int]bool) bool {
 // the matcher's deliveries minus the rejected ones; everything else (counting, max, terminal
 // result) is untouched.
 func goSpecCase(c *Case, ds []*Decl) *Result {
-	s := &specRun{withTxt: c.Driver == "edi", relChar: c.RelChar}
+	s := &specRun{withTxt: c.Driver == "edi" || (c.Pat && c.Driver != "direct"), relChar: c.RelChar, pat: c.Pat}
 	r := s.run(ds, c.Units)
 	if c.Filter {
 		rej := map[int]bool{}
@@ -368,6 +434,11 @@ func coqLeaf(l Leaf) string {
 		return fmt.Sprintf("(LName %d)", l.N)
 	case "rows":
 		return fmt.Sprintf("(LRows %d)", l.K)
+	case "pat":
+		if l.FP < 0 {
+			return fmt.Sprintf("(LPat %d None)", l.HP)
+		}
+		return fmt.Sprintf("(LPat %d (Some %d))", l.HP, l.FP)
 	default:
 		return fmt.Sprintf("(LHF %d %d)", l.N, l.F)
 	}
